@@ -53,29 +53,43 @@ theorem toIdTreeL_ids : ∀ (cs : List Tree), IdTree.idsL (toIdTree.toIdTreeL cs
   | c :: cs => by simp only [toIdTree.toIdTreeL, IdTree.idsL, idsL_cons, toIdTree_ids c, toIdTreeL_ids cs]
 end
 
-/-- the registry after discarding a list of subtrees one after the other -/
-def discardAll (R : Registry) (xs : List (Tree × Reason)) : Option Registry :=
-  xs.foldlM (fun r x => r.delTree (toIdTree x.1)) R
+/-- the registry after discarding a list of subtrees one after the other (`delete_node_instance` on each root) -/
+def discardTrees (R : Registry) (xs : List Tree) : Option Registry :=
+  xs.foldlM (fun r x => r.delTree (toIdTree x)) R
 
-theorem discardAll_ok : ∀ (xs : List (Tree × Reason)) (R : Registry), (∀ i ∈ removedIds xs, i ∈ R.keys) → (removedIds xs).Nodup →
-    ∃ R', discardAll R xs = some R' ∧ ∀ k, k ∈ R'.keys ↔ (k ∈ R.keys ∧ k ∉ removedIds xs)
-  | [], R, _, _ => ⟨R, rfl, fun k => by simp⟩
+def idsOfTrees (xs : List Tree) : List String := xs.flatMap Tree.ids
+
+theorem discardTrees_ok : ∀ (xs : List Tree) (R : Registry), (∀ i ∈ idsOfTrees xs, i ∈ R.keys) → (idsOfTrees xs).Nodup →
+    ∃ R', discardTrees R xs = some R' ∧ ∀ k, k ∈ R'.keys ↔ (k ∈ R.keys ∧ k ∉ idsOfTrees xs)
+  | [], R, _, _ => ⟨R, rfl, fun k => by simp [idsOfTrees]⟩
   | x :: xs, R, hsub, hnd => by
-    simp only [removedIds_cons, List.nodup_append] at hnd
-    simp only [removedIds_cons, List.mem_append] at hsub
-    obtain ⟨R1, h1⟩ := delTree_ok (toIdTree x.1) R (by rw [toIdTree_ids]; exact fun j hj => hsub j (Or.inl hj)) (by rw [toIdTree_ids]; exact hnd.1)
+    simp only [idsOfTrees, List.flatMap_cons, List.nodup_append] at hnd
+    simp only [idsOfTrees, List.flatMap_cons, List.mem_append] at hsub
+    obtain ⟨R1, h1⟩ := delTree_ok (toIdTree x) R (by rw [toIdTree_ids]; exact fun j hj => hsub j (Or.inl hj)) (by rw [toIdTree_ids]; exact hnd.1)
     have hk := delete_keys_iff _ R R1 h1
-    obtain ⟨R', h2, hk2⟩ := discardAll_ok xs R1 (by
+    obtain ⟨R', h2, hk2⟩ := discardTrees_ok xs R1 (by
       intro j hj
       rw [hk j, toIdTree_ids]
       exact ⟨hsub j (Or.inr hj), fun hjt => hnd.2.2 j hjt j hj rfl⟩) hnd.2.1
     refine ⟨R', ?_, ?_⟩
-    · simp only [discardAll, List.foldlM_cons, h1] at h2 ⊢
+    · simp only [discardTrees, List.foldlM_cons, h1] at h2 ⊢
       exact h2
     · intro k
-      rw [hk2 k, hk k, toIdTree_ids, removedIds_cons, List.mem_append]
+      rw [hk2 k, hk k, toIdTree_ids]
+      simp only [idsOfTrees, List.flatMap_cons, List.mem_append]
       constructor
       · rintro ⟨⟨a, b⟩, c⟩; exact ⟨a, fun h => h.elim b c⟩
       · rintro ⟨a, b⟩; exact ⟨⟨a, fun h => b (Or.inl h)⟩, fun h => b (Or.inr h)⟩
+
+/-- `prune`: one discard per removed subtree -/
+def discardAll (R : Registry) (xs : List (Tree × Reason)) : Option Registry := discardTrees R (xs.map (·.1))
+
+theorem removedIds_eq (xs : List (Tree × Reason)) : removedIds xs = idsOfTrees (xs.map (·.1)) := by
+  simp [removedIds, idsOfTrees, List.flatMap_map]
+
+theorem discardAll_ok (xs : List (Tree × Reason)) (R : Registry) (hsub : ∀ i ∈ removedIds xs, i ∈ R.keys) (hnd : (removedIds xs).Nodup) :
+    ∃ R', discardAll R xs = some R' ∧ ∀ k, k ∈ R'.keys ↔ (k ∈ R.keys ∧ k ∉ removedIds xs) := by
+  rw [removedIds_eq] at hsub hnd ⊢
+  exact discardTrees_ok _ R hsub hnd
 
 end Metapype
